@@ -427,7 +427,11 @@ func Specs(t *rapid.T, o DAGOpts) []NodeSpec {
 	if o.ATPool == nil {
 		o.ATPool = defaultATs
 	}
-	n := rapid.IntRange(1, o.MaxNodes).Draw(t, "nNodes")
+	lo := 1
+	if o.MaxNodes >= 6 {
+		lo = 3
+	}
+	n := rapid.IntRange(lo, o.MaxNodes).Draw(t, "nNodes")
 	var specs []NodeSpec
 	var blobs, manifests, plainBlobs []int
 	titleN := 0
@@ -495,18 +499,18 @@ func Specs(t *rapid.T, o DAGOpts) []NodeSpec {
 	for i := 0; i < n; i++ {
 		var s NodeSpec
 		kindRoll := rapid.IntRange(0, 99).Draw(t, "kindRoll")
-		if len(plainBlobs) == 0 || kindRoll < 38 {
+		if len(plainBlobs) == 0 || kindRoll < 32 {
 			s = mkBlob("blob", len(plainBlobs) == 0)
 		} else {
 			k := kindRoll
 			switch {
-			case k < 62:
+			case k < 56:
 				s.Kind = KImage
-			case k < 70 && !o.NoDocker:
+			case k < 63 && !o.NoDocker:
 				s.Kind = KDocker
-			case k < 84:
+			case k < 82:
 				s.Kind = KIndex
-			case k < 88 && !o.NoDocker:
+			case k < 87 && !o.NoDocker:
 				s.Kind = KDockerList
 			case k < 100 && !o.NoArtifact:
 				s.Kind = KArtifact
